@@ -339,7 +339,9 @@ def r5_dispatch_table(chk, prog):
       T2 a key word ends the open value list of EVERY member: a free value behind a key whose argument takes no
          further values is refused, whichever member owns the key and whichever member had the open list;
       T3 result 'last' ends the evaluation: no later word is offered to any member;
-      T4 '!' inverts the next identified argument, whichever member owns it, and nothing stays armed."""
+      T4 '!' inverts the next identified argument, whichever member owns it, and nothing stays armed;
+      T5 a value word continues the open value list (of whichever member) before any positional argument is tried;
+      T6 no value list stays open when the evaluation ends."""
     from ..boolshape import Interp, NeedAtom, Unsupported, Throw
     import itertools
     f = prog.one('celma::prog_args::Groups', 'evalArguments', pred=lambda f: len(f.params) == 2)
@@ -355,7 +357,7 @@ def r5_dispatch_table(chk, prog):
     type_vals = {e['name']: e['val'] for e in et[0]['enumerators']}
     members = (100, 200)
 
-    def evaluate(words, knows, open0=(False, False), command=False):
+    def evaluate(words, knows, open0=(False, False), command=False, positional=(), multi=()):
         """words: list of ('long', id) | ('short', id) | ('value',) | ('!',);  knows[m][id] = 'exact'|'abbrev'|'ambiguous'.
         returns (outcome, events, final state)"""
         st = {'open': dict(zip(members, open0)), 'inv': {m: False for m in members}}
@@ -382,7 +384,11 @@ def r5_dispatch_table(chk, prog):
             w = word_at(it)
             if w[0] == 'value':
                 if st['open'][m]:
-                    events.append(('value', m))
+                    events.append(('value', m, 'list'))
+                    return res_vals['consumed']
+                if m in positional:
+                    # (Handler::evalSingleArgument: the open value list first, then the positional argument)
+                    events.append(('value', m, 'positional'))
                     return res_vals['consumed']
                 return res_vals['unknown']
             if w[0] == '!':
@@ -397,6 +403,8 @@ def r5_dispatch_table(chk, prog):
                 raise Throw('ambiguous')
             events.append(('key', w[1], m, how, st['inv'][m]))
             st['inv'][m] = False
+            if w[1] in multi:
+                st['open'][m] = True        # the argument takes several values: its list stays open
             return res_vals['last'] if command else res_vals['consumed']
 
         def lookup(it, call, exact_only):
@@ -447,7 +455,8 @@ def r5_dispatch_table(chk, prog):
             return 0
         cbs = {'evalSingleArgument': cb_eval, 'findArg': lambda it, c: lookup(it, c, False),
                'findExactArg': lambda it, c: lookup(it, c, True), 'get': lambda it, c: member_in(it, children(c)[0]),
-               'endValueList': cb_end_list, 'usagePrinted': lambda it, c: 0, 'ArgumentKey': lambda it, c: 7,
+               'endValueList': cb_end_list, 'valueListOpen': lambda it, c: int(st['open'][member_in(it, children(c)[0])]),
+               'usagePrinted': lambda it, c: 0, 'ArgumentKey': lambda it, c: 7,
                'key': lambda it, c: 7, 'begin': lambda it, c: 0, 'end': lambda it, c: len(words),
                'operator++': cb_inc, '<range>': lambda it, rng: list(members), '<atom>': cb_atom, '<store>': cb_store,
                '<loops>': True}
@@ -531,7 +540,60 @@ def r5_dispatch_table(chk, prog):
                 'an exception' if out == 'throw' else 'the argument is handled %s; inversion still armed in: %s' % (
                     'inverted' if keys and keys[0][4] else 'NOT inverted',
                     [mem(m) for m, v in st['inv'].items() if v] or 'no member')))
-    chk.require(n >= 25, 'dispatch combinations evaluated: %d' % n)
+    # ---- T5: a value word belongs to the argument whose value list is open - in whichever member - before the
+    # positional argument of any member is tried (Handler::evalSingleArgument asks mpLastArg first)
+    for opened, pos_m in itertools.product(members, members):
+        out, ev, _ = evaluate([('value',)], {}, open0=tuple(m == opened for m in members), positional=(pos_m,))
+        taken = [e for e in ev if e[0] == 'value']
+        ok = out == 'done' and len(taken) == 1 and taken[0][1:] == (opened, 'list')
+        n += 1
+        chk.check(ok, 'R5', f.name, 'a value word continues the open value list of %s, not the positional argument of '
+                  '%s' % (mem(opened), mem(pos_m)), f.loc(loop), 'Groups::evalArguments: %s' % (
+                      'an exception' if out == 'throw' else ', '.join(
+                          'stored by %s as %s' % (mem(e[1]), 'positional value' if e[2] == 'positional' else
+                                                  'list value') for e in taken) or 'not stored'))
+    for pos_m in members:
+        out, ev, _ = evaluate([('value',)], {}, positional=(pos_m,))
+        taken = [e for e in ev if e[0] == 'value']
+        n += 1
+        chk.check(out == 'done' and len(taken) == 1 and taken[0][1:] == (pos_m, 'positional'), 'R5', f.name,
+                  'without an open value list a value word goes to the positional argument of %s' % mem(pos_m),
+                  f.loc(loop), 'Groups::evalArguments: %s' % ('an exception' if out == 'throw' else taken))
+    # ---- T6: no value list stays open when the evaluation ends (Handler::evalArguments resets mpLastArg at its
+    # exit): the next evaluation through the group starts like the first one
+    resets = []
+    for c in f.calls():
+        if callee_is(c, 'endValueList') and not any(c is x for x in walk(loop)):
+            resets.append(('after the word loop', c))
+    for ds in (x for x in f.walk() if x.get('k') == 'DeclStmt' and not any(x is y for y in walk(loop))):
+        for d in ds.get('decls', []):
+            t = (d.get('t') or '').replace('const ', '').strip()
+            for g in prog.functions:
+                if g.short.startswith('~') and g.body is not None and (g.classq or '') and t.endswith(
+                        (g.classq or '').split('::')[-1]) and any(callee_is(c, 'endValueList') for c in g.calls()):
+                    # (clang's CFG re-synthesises a DeclStmt that also defines the class: take the initialiser)
+                    resets.append(('scope guard %s' % d.get('name'),
+                                   ds if f.cfg.position(ds) is not None or not isinstance(d.get('init'), dict) else d['init']))
+    ok = False
+    detail = 'no member value list is closed outside the word loop: an argument that takes several values keeps its ' \
+             'list open, and the first value words of the next evaluation are appended to it'
+    for how, node in resets:
+        if how.startswith('scope guard'):
+            # the guard lives from its declaration to every exit of the function, exceptional ones included; it must be
+            # set up before the first word is evaluated
+            first_eval = [c for c in walk(loop) if c.get('k') in CALL_KINDS and callee_is(c, 'Handler::evalSingleArgument')]
+            ok = ok or bool(first_eval) and f.cfg.node_dominates(node, first_eval[0])
+            if not ok:
+                detail = 'the scope guard is not set up before the first word is evaluated'
+        else:
+            inner = [l for l in loops_in(f) if any(node is x for x in walk(l))]
+            off = f.cfg.must_pass_through(lambda x: x is node) if inner else ['not in a loop over the members']
+            ok = ok or not off
+            if off:
+                detail = 'the value lists are not closed on every normal path (or not for every member)'
+    n += 1
+    chk.check(ok, 'R5', f.name, 'no value list of a member stays open when the evaluation ends', f.loc(), '' if ok else detail)
+    chk.require(n >= 32, 'dispatch combinations evaluated: %d' % n)
 
 
 def run(chk):
